@@ -19,7 +19,9 @@ import (
 	"github.com/ethereum/go-ethereum/crypto"
 	"github.com/vipnode/vipnode/v2/agent"
 	"github.com/vipnode/vipnode/v2/ethnode"
+	"github.com/vipnode/vipnode/v2/jsonrpc2"
 	"github.com/vipnode/vipnode/v2/pool"
+	"github.com/vipnode/vipnode/v2/pool/store"
 	"pgregory.net/rapid"
 
 	"verif/vt"
@@ -42,6 +44,7 @@ func c20Case(rt *rapid.T, rec *vt.Rec) {
 	var mu sync.Mutex
 	failConnect := false
 	failUpdateAt := -1 // absolute update call number that fails (scriptPool counts from 1)
+	failKind := rapid.IntRange(0, 3).Draw(rt, "keepAliveFailureKind")
 	sp.onConnect = func(n int) error {
 		mu.Lock()
 		defer mu.Unlock()
@@ -69,6 +72,19 @@ func c20Case(rt *rapid.T, rec *vt.Rec) {
 		inFlight--
 		mu.Unlock()
 		if failNow {
+			// whatever the pool's reason - also "unregistered node" (a pool restarted on an empty store), in the form an
+			// in-process pool returns it and in the form it has after crossing the RPC boundary - the loop ends with it
+			mu.Lock()
+			kind := failKind
+			mu.Unlock()
+			switch kind {
+			case 1:
+				return nil, fmt.Errorf("scripted keep-alive failure: %w", store.ErrUnregisteredNode)
+			case 2:
+				return nil, &jsonrpc2.ErrResponse{Code: jsonrpc2.ErrCodeInternal, Message: "scripted keep-alive failure: " + store.ErrUnregisteredNode.Error()}
+			case 3:
+				return nil, store.ErrUnregisteredNode
+			}
 			return nil, errors.New("scripted keep-alive failure")
 		}
 		return &pool.UpdateResponse{}, nil
@@ -477,7 +493,7 @@ func c20Case(rt *rapid.T, rec *vt.Rec) {
 					synctest.Wait()
 					select {
 					case err := <-done:
-						if err == nil || !strings.Contains(err.Error(), "scripted keep-alive failure") {
+						if err == nil || !(strings.Contains(err.Error(), "scripted keep-alive failure") || strings.Contains(err.Error(), store.ErrUnregisteredNode.Error())) {
 							fail("a keep-alive failed; Wait returned %v, want that error", err)
 						}
 					default:
